@@ -105,6 +105,15 @@ func execLimits(op string, args []string) string {
 }
 
 func execLimitsFine(op string, args []string) string {
+	if op == "receipt_text" && len(args) == 2 {
+		// limits.receipt_text <ver> <text>: receipt of an arbitrary event text
+		verImpl, err := gmsl.GetRoomVersion(gmsl.RoomVersion(args[0]))
+		if err != nil {
+			return "err:version"
+		}
+		_, err = verImpl.NewEventFromUntrustedJSON(unhx(args[1]))
+		return classifyEventErr(err)
+	}
 	if op == "untrusted_badhash" && len(args) == 8 {
 		return execLimitsBadHash(args)
 	}
@@ -368,6 +377,51 @@ func genLimits(o *Out, tier string, r *Rng) {
 			emitBad(ver, jl, mkType(sz), &e, "@s:b", "!r:b")
 			emitBad(ver, jl, "m.x", mkSK(sz), mkSender(Pick(r, limitSizes)), "!r:b")
 			emitBad(ver, jl, "m.x", nil, "@s:b", mkRoom(sz))
+		}
+	}
+
+	// 1c. create events of the room versions whose room IDs derive from the create event's ID (12, hydra): a room_id
+	// member that is present anyway is still the event's room_id field and subject to the limits.  (Build refuses
+	// any room ID on such an event — an API contract, not a size decision — so only the parse paths are driven.)
+	for _, ver := range allVersions {
+		if _, v3 := verFormat(ver); !v3 {
+			continue
+		}
+		e := ""
+		for _, sz := range limitSizes {
+			if !thorough && !r.Chance(50) {
+				continue
+			}
+			jl := Pick(r, []int{0, 0, 65536})
+			emit("untrusted", ver, jl, "m.room.create", &e, "@s:b", mkRoom(sz))
+			emit("untrusted", ver, jl, "m.room.create", &e, "@s:b", sizedText("!", "", sz[0], sz[1]))
+			emit("trusted", ver, jl, "m.room.create", &e, "@s:b", mkRoom(sz))
+			o.Count("create-with-room_id")
+		}
+	}
+
+	// 1d. the limits apply to the members of the event's JSON: an over-long `type` / `state_key` / `sender` / `room_id`
+	// is refused whatever other members (case variants of the name, decoded into the same struct field) say
+	for _, ver := range allVersions {
+		format, v3 := verFormat(ver)
+		room := "!r:b"
+		if v3 {
+			room = "!" + strings.Repeat("A", 43)
+		}
+		e := ""
+		for _, fam := range structNameVariants {
+			name := fam[0]
+			if name != "type" && name != "state_key" && name != "sender" && name != "room_id" {
+				continue
+			}
+			if !thorough && !r.Chance(60) {
+				continue
+			}
+			base := []byte(limitsEventJSON(format, "m.x", &e, "@s:b", room, 3, strings.Repeat("A", 43)))
+			mode := Pick(r, []int{2, 2, 2, 3, 4, 0})
+			t, lab := r.foldVariantText(ver, base, name, fam[1+r.Intn(len(fam)-1)], mode, r.Chance(85))
+			res := o.Do("receipt_text", ver, hx(t))
+			o.Count("receipt_text." + lab + "." + res)
 		}
 	}
 
